@@ -244,6 +244,34 @@ def table_o_shape(facts, rep, rule, w):
                     pols = {inter.case_polarity(ct) for ct, _, rbb in cases_ if rbb in after}
                     if pols - {"err"}:
                         cond.append("its name converts (a name that does not is skipped)")
+        # ... whatever shape the condition has (a disjunction dominates nothing): every turn of the loop over the OS listing passes
+        # the push — without the push block the loop header cannot be reached again from itself
+        for cb in inter.code_bodies(b):
+            trp = get_tracer(facts, cb)
+            cfgp = trp.cfg
+            push_blocks = [s_.bb for s_ in inter.sites(cb) if s_.short in ("Vec::push", "VecDeque::push_back", "Vec::insert")]
+            if not push_blocks:
+                continue
+            for blk in cb.calls():
+                shn = short(blk.term.callee() or "")
+                if shn.split("::")[-1] not in ("next", "poll_next", "poll_next_unpin") or blk.idx in push_blocks:
+                    continue
+                if not any(cfgp.dominates(blk.idx, pb) and cfgp.reaches(pb, blk.idx) for pb in push_blocks):
+                    continue
+                # can the header be reached again without passing a push?
+                seen_, st_ = set(), [x for x in cfgp.succ[blk.idx]]
+                skipped = False
+                while st_:
+                    x = st_.pop()
+                    if x in seen_ or x in push_blocks:
+                        continue
+                    seen_.add(x)
+                    if x == blk.idx:
+                        skipped = True
+                        break
+                    st_.extend(cfgp.succ[x])
+                if skipped:
+                    cond.append("some condition of the loop body holds (an iteration can end without listing its entry)")
         okl = not shaping and not cond
         n += 1
         rep.ob(rule, b.id, "read_dir: every entry of the directory is listed (no filter, no condition)", okl, "" if okl else
@@ -288,6 +316,60 @@ def table_o_shape(facts, rep, rule, w):
         rep.ob(rule, b.id, "%s: the time is converted with FileTime::from(time)" % op, okc, shown if okc else
                "the value handed to filetime is %s, not FileTime::from(<the time argument>): a hand-made conversion does not round-trip "
                "every SystemTime (pre-epoch, sub-second)" % (shown or "?"), b.span)
+    # where an operation cannot be carried out at all (the async setters without a tokio runtime to run the blocking call on) the
+    # answer is NotSupported, like for every other optional operation a backend lacks — whichever way the test is spelled
+    for op in ("set_modification_time", "set_access_time"):
+        b = ops.get(op)
+        if b is None:
+            continue
+        seen_rt = set()
+        for rb in inter.reachable([b], through_dyn=False).values():
+            if not rb.file.startswith("src/"):
+                continue
+            for cb in inter.code_bodies(rb):
+                if cb.id in seen_rt:
+                    continue
+                seen_rt.add(cb.id)
+                trr = get_tracer(facts, cb)
+                if not any(short(bl.term.callee() or "") == "Handle::try_current" for bl in cb.calls()):
+                    continue
+                wrong = []
+                for blk in cb.blocks:
+                    if blk.cleanup:
+                        continue
+                    for st in blk.stmts:
+                        if st.kind == "assign" and st.rv.kind == "agg" and st.rv.agg.get("adt") == "error::VfsErrorKind":
+                            # built where the runtime is known to be missing?
+                            norun = False
+                            for g in trr.guards_at(blk.idx):
+                                txt = [x for x in walk(g[1]) if x[0] == "call" and isinstance(x[1], str) and short(x[1]) == "Handle::try_current"]
+                                if not txt:
+                                    continue
+                                if (g[0] == "variant" and g[2] == "err") or \
+                                        (g[0] == "bool" and any(x[0] == "call" and short(x[1]) == "Result::is_ok" for x in walk(g[1])) and g[2] is False) or \
+                                        (g[0] == "bool" and any(x[0] == "call" and short(x[1]) == "Result::is_err" for x in walk(g[1])) and g[2] is True):
+                                    norun = True
+                            if norun and st.rv.agg.get("variant") != "NotSupported":
+                                wrong.append((st.rv.agg.get("variant"), st.line))
+                # ... or inside the closure of `try_current().map_err(|e| ..)`
+                for s_ in inter.sites(cb):
+                    if s_.short in ("Result::map_err", "Result::or_else") and s_.args and \
+                            any(x[0] == "call" and isinstance(x[1], str) and short(x[1]) == "Handle::try_current" for x in walk(trr.operand(s_.args[0]))):
+                        for a_ in s_.args[1:]:
+                            ct_ = trr.operand(a_)
+                            for x in walk(ct_):
+                                if x[0] == "closure":
+                                    clb = facts.body(x[1])
+                                    if clb is not None:
+                                        for bl2 in clb.blocks:
+                                            for st2 in bl2.stmts:
+                                                if st2.kind == "assign" and st2.rv.kind == "agg" and st2.rv.agg.get("adt") == "error::VfsErrorKind" \
+                                                        and st2.rv.agg.get("variant") != "NotSupported":
+                                                    wrong.append((st2.rv.agg.get("variant"), st2.line))
+                n += 1
+                rep.ob(rule, b.id, "%s: without a runtime the answer is NotSupported" % op, not wrong, "" if not wrong else
+                       "the missing-runtime case is answered with %s: callers that probe for the optional operation see a failure of "
+                       "another class" % wrong[0][0], wrong[0][1] if wrong else cb.span)
     # metadata reports the OS time stamps as std hands them out (Metadata::modified/created/accessed), unconverted
     b = ops.get("metadata")
     if b is not None:
